@@ -316,7 +316,11 @@ impl<const NB_PROOFS: usize> LightAggregator<NB_PROOFS> {
                     &mut inner_transcript,
                 )?;
 
-                assert!(dual_msm.clone().check(&srs.verifier_params()));
+                // An inner proof that parses but does not verify is an error of
+                // the caller's input, not a bug.
+                if !dual_msm.clone().check(&srs.verifier_params()) {
+                    return Err(Error::Opening);
+                }
 
                 let fixed_bases =
                     midnight_circuits::verifier::fixed_bases::<S>("inner_vk", &self.inner_vk);
